@@ -220,6 +220,22 @@ func (x *Explorer) call(st *State, site ssa.CallInstruction, cc *ssa.CallCommon,
 			t = x.Val.Async
 		}
 		if t != triUnk {
+			if obj == a.AsyncEnabled && t == triYes && len(cc.Args) > 0 && a.SchAsync != nil {
+				// async writes enabled implies the settings pointer is set
+				if _, isConst := cc.Args[0].(*ssa.Const); !isConst {
+					base := st.symOf(cc.Args[0])
+					if _, ok := st.facts[base]; !ok {
+						st.facts[base] = Fact{}
+					}
+					st.env[vkey{st.depth(), cc.Args[0]}] = base
+					ms := Sym{d: st.depth(), i: 7, v: cc.Args[0]}
+					st.facts[ms] = Fact{Nil: triNo}
+					if st.memo == nil {
+						st.memo = map[memoKey]Sym{}
+					}
+					st.memo[memoKey{base, a.SchAsync}] = ms
+				}
+			}
 			x.defineResult(st, site, deferred, Fact{Bool: t})
 			return x.doneCall(st, deferred)
 		}
@@ -482,6 +498,17 @@ func (x *Explorer) external(st *State, site ssa.CallInstruction, cc *ssa.CallCom
 	case xErrorf, xErrorsNew:
 		for i := range res {
 			res[i] = Fact{Nil: triNo}
+		}
+	case xErrorsIs:
+		if len(cc.Args) == 2 {
+			if ld, ok := cc.Args[1].(*ssa.UnOp); ok {
+				if g, ok := ld.X.(*ssa.Global); ok && g.Object() == x.P.A.SentByName["ErrIndexCorrupted"] {
+					ev(EIsCorruptedQ, 0)
+					if x.Val.IsCorrupted != triUnk && len(res) == 1 {
+						res[0].Bool = x.Val.IsCorrupted
+					}
+				}
+			}
 		}
 	case xLock, xRLock, xUnlock, xRUnlock:
 		class := "T"
